@@ -38,6 +38,8 @@ var zzZooTypes = []zzTypeSpec{
 		{name: "a", typ: "String"},
 		{name: "b", typ: "String"},
 		{name: "i", typ: "Int", args: []zzArgSpec{{name: "v", typ: "Int", hasDef: true, def: 7}, {name: "w", typ: "Int"}}},
+		{name: "e", typ: "String", args: []zzArgSpec{{name: "c", typ: "Color"}}},
+		{name: "s", typ: "String", args: []zzArgSpec{{name: "t", typ: "String"}, {name: "u", typ: "String"}}},
 		{name: "o", typ: "Obj"},
 		{name: "onn", typ: "Obj", nonNull: true},
 		{name: "ol", typ: "Obj", list: true},
@@ -167,6 +169,29 @@ func zzLeafValue(parent, field string, args map[string]interface{}) interface{} 
 		}
 		return v + w + w + w // adds only: 64-bit multiplications stall the bit-blasting solvers
 	}
+	if parent == "Query" && field == "e" {
+		switch c := args["c"].(type) {
+		case int:
+			return "int" + zzItoa(c)
+		case string:
+			return "str:" + c
+		case nil:
+			return "none"
+		}
+		return "other"
+	}
+	if parent == "Query" && field == "s" {
+		t, hasT := args["t"].(string)
+		u, hasU := args["u"].(string)
+		out := "s"
+		if hasT {
+			out += "|t=" + t
+		}
+		if hasU {
+			out += "|u=" + u
+		}
+		return out
+	}
 	if field == "m1" || field == "m2" || field == "m3" {
 		return 1
 	}
@@ -175,7 +200,9 @@ func zzLeafValue(parent, field string, args map[string]interface{}) interface{} 
 
 // zzBuildSchema builds the real schema from the table.
 func zzBuildSchema(w *zzWorld) Schema {
-	named := map[string]Type{"String": String, "Int": Int, "Boolean": Boolean}
+	color := NewEnum(EnumConfig{Name: "Color", Values: EnumValueConfigMap{
+		"RED": &EnumValueConfig{Value: 0}, "GREEN": &EnumValueConfig{Value: 1}, "BLUE": &EnumValueConfig{Value: "b"}}})
+	named := map[string]Type{"String": String, "Int": Int, "Boolean": Boolean, "Color": color}
 	var node *Interface
 	var uni *Union
 	objs := map[string]*Object{}
@@ -444,6 +471,19 @@ func (r *zzRef) argValue(spec *zzFieldSpec, f *ast.Field) map[string]interface{}
 				n = -n
 			}
 			out[a.name] = n
+			set = true
+		case *ast.StringValue:
+			out[a.name] = g.Value
+			set = true
+		case *ast.EnumValue:
+			switch g.Value {
+			case "RED":
+				out[a.name] = 0
+			case "GREEN":
+				out[a.name] = 1
+			case "BLUE":
+				out[a.name] = "b"
+			}
 			set = true
 		case *ast.Variable:
 			if v, ok := r.vars[g.Name.Value]; ok && v != nil {
